@@ -436,5 +436,19 @@ row(props=["C05"], func=RN + "startParse", params=["nodes", "relates"], kind="ca
     expr='call.Package == %s.Package && call.NodeName == %s.Class && call.FunctionName == %s.Method' % (OLD, OLD, OLD),
     what="a call site is rewritten ⇔ the call is recorded against the package, class and method of the entry")
 
+row(props=["C20"], func="pkg/infrastructure/ast/ast_go.BuildImport", params=["x", "fileName", "manager"], kind="callarg", callee="strings.ReplaceAll", total=2, index=0, arg=0,
+    expr='call("slice", x.Path.Value, 1, len(x.Path.Value) - 1)', what="an import is listed under the path between the delimiters of its literal — one character at each end, a double quote or a back quote (import `os` is valid Go)")
+
+EVT = "GetText(ElementValue(ctx))"
+EXCL = "!(ElementValuePairs(ctx) != nil && ElementValue(ctx) != nil)"  # grammar: annotation : '@' qualifiedName ('(' (elementValuePairs | elementValue)? ')')?
+row(props=["C12"], func=API + "buildBaseApiUrlString", params=["name", "ctx"], kind="emits", target="globalstore:" + API + "baseApiUrl", tag={}, total=2, index=1, assume=EXCL,
+    when='name == "RequestMapping" && ElementValuePairs(ctx) == nil && ElementValue(ctx) != nil',
+    fields={"value": 'ite(len(%s) < 2, %s, call("slice", %s, 1, len(%s) - 1))' % (EVT, EVT, EVT, EVT)},
+    what="the base path of a controller is the path its class-level @RequestMapping names (shorthand form); a mapping that names no path contributes none — the URI is the base path followed by the method's path, so no constant is ever put in front")
+row(props=["C12"], func=API + "buildBaseApiUrlString", params=["name", "ctx"], kind="emits", target="globalstore:" + API + "baseApiUrl", tag={}, total=2, index=0, each={"as": "pair"}, assume=EXCL,
+    when='name == "RequestMapping" && ElementValuePairs(ctx) != nil && GetText(Identifier(pair)) == "value"',
+    fields={"value": 'ite(len(%s) < 2, %s, call("slice", %s, 1, len(%s) - 1))' % (PAIRTXT, PAIRTXT, PAIRTXT, PAIRTXT)},
+    what="the base path of a controller is the value= of its class-level @RequestMapping")
+
 json.dump({"e5": rows}, open(os.path.join(os.path.dirname(os.path.dirname(os.path.abspath(__file__))), "spec", "e5.json"), "w"), indent=1, ensure_ascii=False)
 print(len(rows), "rows")
